@@ -17,7 +17,7 @@ def run(ctx) -> Report:
     if not ctx.replay:
         T.run_mc(rep, ctx, "C07")
     n = 1 if ctx.quick else 12
-    classes = {"plain": 120 * n, "faults": 260 * n, "crash": 80 * n, "crashany": 160 * n, "abortable": 60 * n, "refused": 50 * n}
+    classes = {"plain": 120 * n, "faults": 260 * n, "crash": 80 * n, "crashany": 160 * n, "abortable": 60 * n, "refused": 50 * n, "nodedown": 100 * n}
     rng = random.Random(ctx.seed * 7919 + 7)
     scs = [T.gen_scenario(rng, rng.randrange(1 << 30), c) for c, k in classes.items() for _ in range(k)]
     T.conformance(rep, ctx, "C07", scs)
